@@ -54,6 +54,7 @@ type detConn struct {
 	off     int
 	rerr    error
 	nread   int64
+	pumped  int64
 	lclosed bool
 	rdl     time.Time
 }
@@ -75,6 +76,7 @@ func (d *detConn) pump() {
 				d.buf, d.off = d.buf[:0], 0
 			}
 			d.buf = append(d.buf, tmp[:n]...)
+			d.pumped += int64(n)
 		}
 		if err != nil {
 			d.rerr = err
@@ -126,8 +128,21 @@ func (d *detConn) Write(p []byte) (int, error) {
 	return d.Conn.Write(p)
 }
 
+// Close first waits (bounded) until everything the peer has already written has been pumped
+// out of the socket: closing a TCP socket with unread inbound data sends RST instead of FIN,
+// and the peer's Read then fails with ECONNRESET (class `other`) instead of the abnormal
+// closure that Conn.Read maps to net.ErrClosed - a timing-dependent TCP effect that is outside
+// the model (see checks.d/C07.json `assumed`).
 func (d *detConn) Close() error {
 	d.mu.Lock()
+	if !d.lclosed {
+		dl := time.Now().Add(2 * time.Second)
+		for d.pumped < d.in.n.Load() && d.rerr == nil && time.Now().Before(dl) {
+			d.mu.Unlock()
+			time.Sleep(200 * time.Microsecond)
+			d.mu.Lock()
+		}
+	}
 	d.lclosed = true
 	d.cond.Broadcast()
 	d.mu.Unlock()
